@@ -6,7 +6,7 @@ DRIVER = "drv_devs"
 LEAN_MODULES = ["MesaModel.Props.C15"]
 THEOREMS = ["Mesa.Devs." + t for t in (
     "C15_chunking", "C15_fuel_irrelevant", "C15_abm_steps_eq_clock", "C15_step_once_per_tick",
-    "C15_step_always_armed", "C15_step_before_lower_priority")]
+    "C15_step_always_armed", "C15_step_before_lower_priority", "C15_abm_steps_track_clock")]
 COUNTS = {"quick": 500, "thorough": 150000}
 TRUSTED = [
     "CPython heapq pop-min; refcount weakref death; exact dyadic time arithmetic (see C14)",
